@@ -126,10 +126,10 @@ pub struct Profile {
 pub const SWARM_PCT: u64 = 15;
 const X_UNWIND: &[(K, u64)] = &[(K::UnwindScope, 4), (K::UserPanic, 3), (K::Collect, 2)];
 const X_EVENTS: &[(K, u64)] = &[(K::EventNew, 3), (K::AddEventFrom, 4), (K::LocalAddEvent, 3), (K::AddEvent, 3), (K::LocalAddProps, 3), (K::AddProps, 3)];
-const X_THREADS: &[(K, u64)] = &[(K::RootBurst, 3), (K::Exit, 4), (K::Join, 4), (K::Flush, 4), (K::Cycle, 3), (K::Sleep, 2)];
+const X_THREADS: &[(K, u64)] = &[(K::RootBurst, 3), (K::ReplaceReporter, 2), (K::Exit, 4), (K::Join, 4), (K::Flush, 4), (K::Cycle, 3), (K::Sleep, 2)];
 const X_SCOPES: &[(K, u64)] = &[(K::StartCollector, 4), (K::Push, 3), (K::Collect, 2), (K::SetLocalParent, 4), (K::ChildLocal, 4), (K::Pop, 8)];
 const X_CTX: &[(K, u64)] = &[(K::CtxCurrent, 4), (K::CtxSpan, 4), (K::RootFromCtx, 3), (K::Noop, 2), (K::EmptyParents, 1), (K::Elapsed, 2)];
-const X_MIX: &[(K, u64)] = &[(K::UnwindScope, 2), (K::UserPanic, 2), (K::EventNew, 2), (K::AddEventFrom, 2), (K::Exit, 2), (K::Join, 2), (K::Flush, 2), (K::StartCollector, 2), (K::Push, 2), (K::CtxCurrent, 2)];
+const X_MIX: &[(K, u64)] = &[(K::UnwindScope, 2), (K::UserPanic, 2), (K::EventNew, 2), (K::AddEventFrom, 2), (K::Exit, 2), (K::Join, 2), (K::Flush, 2), (K::StartCollector, 2), (K::Push, 2), (K::CtxCurrent, 2), (K::ReplaceReporter, 1), (K::RootBurst, 1)];
 const X_SETS: &[&[(K, u64)]] = &[&[], X_UNWIND, X_EVENTS, X_THREADS, X_SCOPES, X_CTX, X_MIX, X_MIX];
 const SMALL_RINGS: &[(u32, u64)] = &[(0, 2), (2, 2), (3, 1), (4, 2), (8, 1), (16, 2), (32, 1)];
 
@@ -1378,8 +1378,12 @@ impl<'a> Gen<'a> {
                 let real = |h: &LH| matches!(h, LH::Guard { real: true } | LH::Coll { real: true });
                 let dead_guards = st.len() - pos - 1;
                 let strict_pops = strict() && real(&st[pos]);
-                // (the scope parked by TeardownCalls is a real one below everything else)
-                if strict_pops && (st[..pos].iter().any(real) || self.td_armed.contains(&t)) {
+                // (the scope parked by TeardownCalls is a real one the model does not know, and so
+                // are the scopes of spans derived from it: no early collection in such programs)
+                if strict() && !self.td_armed.is_empty() {
+                    return false;
+                }
+                if strict_pops && st[..pos].iter().any(real) {
                     return false;
                 }
                 let into = if matches!(st[pos], LH::Coll { .. }) && self.rng.pct(80) { Some(self.new_slot()) } else { None };
